@@ -57,4 +57,106 @@ theorem goPath_nil (funcParams urlParams : List String) (as : List Annot) (sp sv
         exact of_ite_nil_cons hC.2
     · exact hrest b hb'
 
+/-- the name a @Path goes by in the URL: its non-empty `name` property, otherwise the parameter's own name
+    (`wireName` of the reducer; `getPathAliasOrName` of the validator for a non-empty alias) -/
+def urlName (a : Annot) : String :=
+  match aliasOf a with
+  | .ok v => if v.isEmpty then a.value else v
+  | _ => a.value
+
+theorem contains_false_of_not_mem {l : List String} {x : String} (h : l.contains x = false) : x ∉ l := by
+  intro hm
+  have : l.contains x = true := by simpa using hm
+  rw [this] at h; cases h
+
+/-- the url-parameter pass reports a repeated `{name}`: an empty result means the names are pairwise distinct
+    (and none of them was seen before) -/
+theorem goUrl_nodup (referenced : List String) (ps seen : List String)
+    (h : linkValidate.goUrl referenced ps seen = []) : ps.Nodup ∧ ∀ p ∈ ps, p ∉ seen := by
+  induction ps generalizing seen with
+  | nil => simp
+  | cons p rest ih =>
+    unfold linkValidate.goUrl at h
+    simp only [List.append_eq_nil_iff] at h
+    obtain ⟨⟨h1, _⟩, h3⟩ := h
+    have hns : seen.contains p = false := by
+      cases hc : seen.contains p with
+      | false => rfl
+      | true => rw [hc] at h1; simp at h1
+    simp only [hns, Bool.false_eq_true, if_false] at h3
+    obtain ⟨hnd, hdisj⟩ := ih _ h3
+    refine ⟨List.nodup_cons.2 ⟨?_, hnd⟩, ?_⟩
+    · intro hm
+      exact hdisj p hm (by simp)
+    · intro q hq
+      rcases List.mem_cons.1 hq with rfl | hq'
+      · exact contains_false_of_not_mem hns
+      · intro hqs; exact hdisj q hq' (by simp [hqs])
+
+/-- the @Path pass (since the fix for C10-F5): an empty result means the URL names of the @Path annotations
+    are pairwise distinct, whether they come from an alias or from the parameter's own name -/
+theorem goPath_names_nodup (funcParams urlParams : List String) (as : List Annot) (sp sv sa : List String)
+    (h : (linkValidate.goPath urlParams funcParams as sp sv sa).1 = []) :
+    (as.map urlName).Nodup ∧ ∀ a ∈ as, urlName a ∉ sa := by
+  induction as generalizing sp sv sa with
+  | nil => simp
+  | cons a rest ih =>
+    unfold linkValidate.goPath at h
+    simp only at h
+    generalize hrec : linkValidate.goPath urlParams funcParams rest _ _ _ = rec at h
+    obtain ⟨r, spr⟩ := rec
+    simp only [List.append_eq_nil_iff] at h
+    obtain ⟨⟨⟨_hA, hB⟩, hC⟩, hr⟩ := h
+    have hsv : sv.contains a.value = false := by
+      cases hc : sv.contains a.value with
+      | false => rfl
+      | true => rw [hc] at hB; simp at hB
+    -- the name of `a` is new, and it is what the accumulator grows by
+    have key : sa.contains (urlName a) = false ∧
+        ∃ sa', linkValidate.goPath urlParams funcParams rest
+          (if (funcParams.contains a.value && !sp.contains a.value) = true then sp ++ [a.value] else sp)
+          (if sv.contains a.value = true then sv else sv ++ [a.value]) sa' = (r, spr) ∧ sa' = sa ++ [urlName a] := by
+      unfold urlName
+      cases hal : aliasOf a with
+      | bad => rw [hal] at hC; simp at hC
+      | none =>
+        rw [hal] at hC hrec
+        simp only [hsv, Bool.not_false, Bool.and_true] at hC
+        have hsa : sa.contains a.value = false := by
+          cases hc : sa.contains a.value with
+          | false => rfl
+          | true => rw [hc] at hC; simp at hC
+        refine ⟨hsa, _, ?_, rfl⟩
+        simpa [contains_false_of_not_mem hsa] using hrec
+      | ok al =>
+        rw [hal] at hC hrec
+        by_cases he : al.isEmpty = true
+        · simp only [he, if_true, hsv, Bool.not_false, Bool.and_true] at hC hrec ⊢
+          have hsa : sa.contains a.value = false := by
+            cases hc : sa.contains a.value with
+            | false => rfl
+            | true => rw [hc] at hC; simp at hC
+          refine ⟨hsa, _, ?_, rfl⟩
+          simpa [contains_false_of_not_mem hsa] using hrec
+        · simp only [he, Bool.false_eq_true, if_false, List.append_eq_nil_iff] at hC hrec ⊢
+          have hsa : sa.contains al = false := by
+            cases hc : sa.contains al with
+            | false => rfl
+            | true => rw [hc] at hC; simp at hC
+          refine ⟨hsa, _, ?_, rfl⟩
+          simpa [contains_false_of_not_mem hsa] using hrec
+    obtain ⟨hnew, sa', hrec', hsa'⟩ := key
+    subst hsa'
+    obtain ⟨hnd, hdisj⟩ := ih _ _ _ (by rw [hrec']; exact hr)
+    refine ⟨?_, ?_⟩
+    · rw [List.map_cons]
+      refine List.nodup_cons.2 ⟨?_, hnd⟩
+      intro hm
+      obtain ⟨b, hb, hbn⟩ := List.mem_map.1 hm
+      exact hdisj b hb (by simp [hbn])
+    · intro b hb
+      rcases List.mem_cons.1 hb with rfl | hb'
+      · exact contains_false_of_not_mem hnew
+      · intro hbs; exact hdisj b hb' (by simp [hbs])
+
 end Gleece.Validate
